@@ -181,3 +181,9 @@ func MountHTTP(h http.Handler) string {
 func TimerDurations() []int64 { return nil }
 func ReadDeadlines() []int64  { return nil }
 func TimersFired() int        { return 0 }
+
+// Engine-only observations of the race / lock-discipline monitors (natively: run with -race instead).
+func Races() int                { return 0 }
+func RaceDesc() string          { return "" }
+func UnlockedWrites() int       { return 0 }
+func UnlockedWriteDesc() string { return "" }
